@@ -31,11 +31,6 @@ type extraResult struct {
 	Samples     []interface{}
 }
 
-type replayResult struct {
-	confirmed bool
-	text      string
-}
-
 func goEnv() []string {
 	return append(os.Environ(), "GOFLAGS=-mod=mod", "GOPROXY=off", "GOSUMDB=off", "GOTOOLCHAIN=local")
 }
@@ -162,17 +157,47 @@ func runBoundedCurves(eng *Engine, work, id string, prefixes []string) extraResu
 	return r
 }
 
-func tryReplay(eng *Engine, o *Obligation, dir string) replayResult {
-	return replayResult{}
-}
-
+// runReplay re-runs the generated test stored in a replay file against the working tree.
+// Exit status 1: the violation reproduces; 0: it does not (or the file carries no test).
 func runReplay(repo, path string) int {
 	b, err := os.ReadFile(path)
 	if err != nil {
 		fmt.Println("cannot read replay file:", err)
 		return 2
 	}
-	fmt.Println(string(b))
+	var rec struct {
+		Obligation string `json:"obligation"`
+		Reason     string `json:"reason"`
+		Output     string `json:"solver_output"`
+		Replay     *struct {
+			Package string            `json:"package_dir"`
+			Source  string            `json:"test_source"`
+			Inputs  map[string]string `json:"inputs"`
+			Kind    string            `json:"obligation_kind"`
+		} `json:"replay"`
+	}
+	if err := json.Unmarshal(b, &rec); err != nil {
+		fmt.Println("cannot parse replay file:", err)
+		return 2
+	}
+	fmt.Println("obligation:", rec.Obligation)
+	fmt.Println("reason:", rec.Reason)
+	if rec.Replay == nil || rec.Replay.Source == "" {
+		fmt.Println("this violation carries no replayable input (no-failing-input-found); solver output:")
+		fmt.Println(rec.Output)
+		return 0
+	}
+	out, _ := runReplayTest(repo, rec.Replay.Package, rec.Replay.Source)
+	for _, ln := range strings.Split(out, "\n") {
+		if strings.Contains(ln, "VCGO-REPLAY") {
+			fmt.Println(strings.TrimSpace(ln))
+		}
+	}
+	ok, text := judgeReplay(&Obligation{Kind: rec.Replay.Kind}, out)
+	fmt.Println(text)
+	if ok {
+		return 1
+	}
 	return 0
 }
 
